@@ -118,7 +118,7 @@ def k_generate(via_main=False, exclude=()):
         enc[:] = sorted(it.encoded)
         return None
 
-    paths = K.explore(run)
+    paths = K.explore(run, modules=[M])
     vpp, samples = [], []
     dns = ("uuid", str(uuid.NAMESPACE_DNS))
     vid_key = ("u5", dns, "VENDOR")
@@ -160,7 +160,7 @@ def k_generate(via_main=False, exclude=()):
         samples.append("ret " + repr(w[0][2][0][1])[:200] if w else "ret (no write)")
 
     def cex(p, m):
-        return {"address": _mi(m, addr), "size": _mi(m, size, 48), "dp": bool(m and z3.is_true(m.eval(dp, model_completion=True))), "iu": bool(m and z3.is_true(m.eval(iu, model_completion=True))), "sv": POLICY_DOMAIN[_mi(m, sel) % 4], "via_main": via_main}
+        return {"address": _mi(m, addr), "size": _mi(m, size, 48), "dp": bool(m and z3.is_true(m.eval(dp, model_completion=True))), "iu": bool(m and z3.is_true(m.eval(iu, model_completion=True))), "sv": POLICY_DOMAIN[_mi(m, sel) % 4], "via_main": via_main, "names_equal": bool(m is not None and _mi(m, vendor.ident, 1) == _mi(m, klass.ident, 2))}
 
     from props.c10 import _finish
 
@@ -222,7 +222,7 @@ def k_merge(n=1, two_seg=False, via_main=False, exclude=()):
             it.call_function(M.MpiGenerator.merge, ["out.hex", SInt(addr), SInt(size), flist], {}, None)
         return None
 
-    paths = K.explore(run, max_paths=20000)
+    paths = K.explore(run, max_paths=20000, modules=[M])
     ivs = intervals()
     inside = [z3.And(a >= addr, a + ln - 1 <= addr + size - 1) for a, ln, _ in ivs]
     overlaps = []
@@ -534,10 +534,14 @@ def v_stubs():
                 w = [e for e in p.log if e[0] == "hexwrite"][0]
                 a, rope = w[2][0]
                 segs = Rope.of(rope).segs
-                area = _concretize(Rope(segs[:1]))
                 hin = [e for e in p.log if e[0] == "hash"][0][3]
-                # the model's digest token stands for SHA-256 of its logged input
-                img = area + hashlib.sha256(b"".join(_concretize(x) for x in hin)).digest()
+                img = b""
+                for sg in segs:
+                    if sg.kind == "opaque" and isinstance(sg.a, tuple) and sg.a[0] == "hash":
+                        # the model's digest token stands for SHA-256 of its logged input
+                        img += hashlib.sha256(b"".join(_concretize(x) for x in hin)).digest()
+                    else:
+                        img += _concretize(Rope([sg]))
                 a = z3.simplify(a).as_long()
                 if mem != {a + i: img[i] for i in range(len(img))}:
                     bad.append(("merge bytes", [[(a, len(x)) for a, x in sg] for sg in inputs]))
@@ -554,15 +558,16 @@ def replay(obligation, params, cex):
     try:
         if obligation.startswith("generate"):
             sv = cex.get("sv")
+            vname, cname = "vendor.example", ("vendor.example" if cex.get("names_equal") else "class-é")
             try:
-                mem = _run_generate(M, d, "vendor.example", "class-é", cex["address"], cex["size"], cex["dp"], cex["iu"], sv, cex.get("via_main", False))
+                mem = _run_generate(M, d, vname, cname, cex["address"], cex["size"], cex["dp"], cex["iu"], sv, cex.get("via_main", False))
             except Exception as e:  # noqa
                 if sv not in (None, "update", "update-and-boot") and type(e).__name__ == "GeneratorError" and not os.listdir(d):
                     return dict(reproduced=False, detail="unsupported policy rejected")
                 return dict(reproduced=True, detail=f"raises {type(e).__name__}: {e}")
             if sv not in (None, "update", "update-and-boot"):
                 return dict(reproduced=True, detail="unsupported policy string accepted")
-            rec = ref_record("vendor.example", "class-é", cex["dp"], cex["iu"], sv, cex["size"])
+            rec = ref_record(vname, cname, cex["dp"], cex["iu"], sv, cex["size"])
             exp = {cex["address"] + i: rec[i] for i in range(len(rec))}
             return dict(reproduced=mem != exp, detail="record differs from the reference layout" if mem != exp else "record matches")
         inputs = []
